@@ -154,6 +154,13 @@ func (f *finderEval) num(v ssa.Value, res func(ssa.Value) ssa.Value, depth int) 
 				return prover.Atom("IDX(" + h.String() + "," + n.key + ")"), true
 			}
 		}
+		// strings.IndexByte(h, c) is strings.Index(h, string(c)) for a constant octet
+		if cal := x.Call.StaticCallee(); cal != nil && cal.Pkg != nil && cal.Pkg.Pkg.Path() == "strings" && (cal.Name() == "IndexByte" || cal.Name() == "IndexRune") {
+			h := f.str(x.Call.Args[0], res, depth+1)
+			if k, ok := constInt(res(x.Call.Args[1])); ok && h.kind == ssSub && k > 0 && k < 128 {
+				return prover.Atom("IDX(" + h.String() + "," + fmt.Sprintf("%q", string(rune(k))) + ")"), true
+			}
+		}
 	}
 	return prover.Lin{}, false
 }
